@@ -3,14 +3,16 @@ C19 - dictionary findall returns complete, resolvable, history-independent resul
 
 Lean: Model/FindAll.lean, Proofs/FindAll.lean, Proofs/FindAllDesc.lean, Proofs/FindAllList.lean (list roots), Props/C19.lean
 B streams: fa.tok (normalisation), fa.find (findall end to end + state of the default objects after the call),
-  fa.raw (_findall with raise_exception=False / explicit token lists), fa.first (findfirst), fa.hist (sequences of
+  fa.findm (findall(xpath, raise_exception) in both modes through the public entry point), fa.raw (_findall with raise_exception=False / explicit token lists), fa.first (findfirst), fa.hist (sequences of
   searches through the shared default objects), fa.pure (result + defaults + the container as it is AFTER the call against
   the model's answer + the tree the model was given).  Half of the trees are list-rooted (n0list.findall).
 C evaluators (the statement on the real code): search (every key through item access and get, identity; every key
   walked by plain Python indexing), exact (an exact node path finds exactly its node), fanout (name on a list),
-  descendant ('//*/name' vs an independent DFS, in the document order of the theorem, again after other searches), pure
+  descendant ('//*/name' vs an independent DFS, in the document order of the theorem, again after other searches;
+  two-step tails '//*/name/sub' vs a DFS oracle, a raise is a failure, raise_exception=False gives the same mapping), pure
   (tree unchanged), defaults (_findall.__defaults__ after every call), history (a search inside a sequence equals
-  the same search on a freshly loaded module), findfirst, mixed (findall/findfirst on list-rooted and dict-rooted
+  the same search on a freshly loaded module), findfirst (none / one / many from findall(xpath, False); a miss is never
+  IndexError/KeyError with raise_exception=False and never KeyError with True), mixed (findall/findfirst on list-rooted and dict-rooted
   containers interleaved and repeated in one process: every outcome equals the one of a freshly loaded module and the
   first outcome of the same search; encoding and identity of every node of the container unchanged; findfirst
   none/many signalling).
@@ -28,7 +30,9 @@ MANIFEST = dict(
               "arguments as explicit state + differential correspondence with the implementation (results in order, exception "
               "class, contents of _findall.__defaults__ after every call) + the statement executed on the implementation",
     text="Lean (Props/C19.lean), all unbounded in tree size, depth, expression and history length, for the code with "
-         "fixes C19-a/C19-b/C19-c applied. n0dict.findall and n0list.findall hand self to the same findall(), so the model has "
+         "fixes C19-a/b/c/d/e applied (d: a name/index step below a final element is a miss of that branch instead of "
+         "KeyError('Internal error'), so '//*/name/first' goes on with the other branches; e: findall hands raise_exception on to "
+         "_findall, which findfirst relies on). Every theorem about findallTop holds for both modes (re). n0dict.findall and n0list.findall hand self to the same findall(), so the model has "
          "one entry point (findallTop) for both roots. FOR EVERY ROOT (dict or list, any tree): C19_state_invariant - a search "
          "started from the fresh default objects ([], {}) leaves them ([], {}), for every tree, expression and outcome "
          "(exceptions included); C19_objects_untouched - no call of _findall modifies the stack dict it received and an empty "
@@ -39,7 +43,14 @@ MANIFEST = dict(
          "for findfirst; C19_pure - every value returned occurs in the tree searched (the model returns values only and does "
          "not thread the tree, so 'the tree is returned unchanged' has no content as a theorem: it is checked on the "
          "implementation by stream fa.pure and the evaluators); C19_findfirst - findfirst is the single pair / (None, None) / "
-         "IndexError exactly as documented; C19_fanout - a name applied to a list is the [*] step followed by the name; "
+         "IndexError exactly as documented, computed from findall(xpath, False); C19_findall_quiet - with raise_exception=False "
+         "findall never raises IndexError or KeyError (the two exceptions _findall uses for 'not there'), for every tree, "
+         "expression and state; C19_findfirst_signals - findfirst(xpath, False) never raises IndexError/KeyError (a miss of any "
+         "kind is (None, None)) and findfirst(xpath) never raises KeyError (its only signal is its own IndexError); "
+         "C19_scalar_step_miss - a name, index or [*] step applied to a final element returns None with both objects "
+         "untouched, in both modes; C19_history_independent_modes / C19_depends_only_modes - the history theorems for sequences "
+         "in which every search has its own raise_exception; C19_step_below_scalar_fixed and C19_raise_exception_threaded - the "
+         "witnesses of the former findings C19-d and C19-e on the model; C19_fanout - a name applied to a list is the [*] step followed by the name; "
          "C19_descendant_positions - descV lists (p, w) iff p ends with the key name and the node at p is w (both inclusions, "
          "any depth, through dicts and lists); C19_descendant_distinct - no position twice, canonical xpaths of distinct "
          "plain positions differ. FOR DICT-ROOTED TREES: C19_exact_path - the canonical xpath of a non-root position made of "
@@ -71,7 +82,9 @@ MANIFEST = dict(
          "'//' = the root itself) return that value and leave the tree unchanged; C19_resolves_list - in particular the key of "
          "an exact-path result. C19_text_key_fixed (witness of the former finding C19-c), C19_scalar_in_list_cex, "
          "C19_scalar_in_list_root_cex (a scalar in a list under a wildcard/name raises IndexError: outside the quantifier). "
-         "NOT proved, checked on the implementation only: object identity (`is`), and that the real code does not write "
+         "NOT proved, checked on the implementation only: completeness of the descendant wildcard with a longer tail "
+         "('//*/name/sub': evaluator descendant against a DFS oracle + streams; soundness of every result is C19_keys_spell), "
+         "object identity (`is`), and that the real code does not write "
          "into the tree (the model is a pure function that does not thread the tree). The model is compared with the real "
          "findall/_findall/findfirst on results in order, exception class and the contents of _findall.__defaults__ after "
          "every call, single searches and sequences, half of the trees list-rooted; stream fa.pure also compares the encoding "
@@ -1059,9 +1072,11 @@ def run(ctx):
         "object identity is checked on the implementation only; the model speaks about values/positions",
         "the model does not thread the tree (it is an argument, never part of a result): 'the tree is not modified' is checked on the implementation (stream fa.pure: encoding after the call; evaluators search/history/mixed: encoding and identity of every node)",
         "n0list.findall / n0dict.findall hand self to the same findall(): one model entry point (findallTop) for both roots; half of the generated trees are list-rooted",
+        "the model follows n0struct_findall.py with fixes C19-a ... C19-e applied (d: a step below a final element is a miss; e: findall passes raise_exception on to _findall)",
+        "'as documented' for findfirst: there is no prose documentation; the contract is the signature (raise_exception=True) and the code of findfirst itself - it searches with findall(node, xpath, False) and signals none by IndexError('Not found item') / (None, None), many by IndexError / the first pair",
         "'fresh search' of the history evaluator = the same search on a newly executed copy of n0struct_findall.py (new function objects, new default objects)",
     ]
-    ctx.extra["trusted_base"] = ["model of findall/_findall/findfirst (lean/N0Verif/Model/FindAll.lean), validated by streams fa.tok/fa.find/fa.raw/fa.first/fa.hist/fa.pure"]
+    ctx.extra["trusted_base"] = ["model of findall/_findall/findfirst (lean/N0Verif/Model/FindAll.lean), validated by streams fa.tok/fa.find/fa.findm/fa.raw/fa.first/fa.hist/fa.pure"]
     ctx.extra["distribution"] = {
         "trees": len(trees), "in_quantifier": sum(1 for t in trees if t["inq"]), "searches": len(searches), "histories": len(hists),
         "exact": len(exact), "fanout": len(fan), "descendant": len(desc),
